@@ -467,6 +467,16 @@ class SStr(Proxy):
         # bytes/str object would refuse
         return (self, empty, self._mk(z3.StringVal("")))
 
+    def split(self, sep=None, maxsplit=-1):
+        """only s.split(sep, 1): [s] without the separator, else [before the first occurrence, everything after it]"""
+        if sep is None or maxsplit != 1:
+            raise core.Unsupported("SStr.split(%r, %r)" % (sep, maxsplit))
+        z = self._other(sep)
+        i = z3.IndexOf(self.t, z, 0)
+        if cx().branch(i >= 0):
+            return [self._mk(z3.SubString(self.t, 0, i)), self._mk(z3.SubString(self.t, i + z3.Length(z), z3.Length(self.t)))]
+        return [self]
+
     def _uf(self, name):
         f = z3.Function(name, z3.StringSort(), z3.StringSort())
         cx().use_model("uninterpreted str.%s (A-STDLIB)" % name)
